@@ -5,7 +5,7 @@ Conditions (tuples):
     ("truth", expr)                `with expr:`  (expr = ("bin", "and", a, m) is the bit test)
     ("not", c) | ("and", c1, c2) | ("or", c1, c2)
 Expressions are dslgen trees plus ("field", pos, bits) - a bit field of a map byte.
-Statements:  ("mark", i)  |  ("with", cond, [stmts], [stmts] or None)
+Statements:  ("mark", i)  |  ("exit",)  |  ("with", cond, [stmts], [stmts] or None)
 
 `program(stmts)` returns the bytecode, the statement list in the record form of spec/Dsl.tla, the
 operand locations and the marker locations.  Nothing about truth values is computed here."""
@@ -44,6 +44,8 @@ def stmt_leaves(stmts, out, marks):
     for s in stmts:
         if s[0] == "mark":
             marks.append(s[1])
+        elif s[0] == "exit":
+            pass
         else:
             cond_leaves(s[1], out)
             stmt_leaves(s[2], out, marks)
@@ -148,6 +150,8 @@ def program(stmts, use_kernel=False, scope=None):
         for s in ss:
             if s[0] == "mark":
                 setattr(self, f"mk{s[1]}", 1)
+            elif s[0] == "exit":                     # the program ends here: nothing after it may run
+                self.exit(XDPExitCode.PASS)
             elif s[3] is None:
                 with cond(self, s[1], True):
                     emit(self, s[2])
@@ -214,6 +218,8 @@ def program(stmts, use_kernel=False, scope=None):
         for s in ss:
             if s[0] == "mark":
                 out.append(dict(k="mark", i=s[1]))
+            elif s[0] == "exit":
+                out.append(dict(k="exit"))
             else:
                 out.append(dict(k="with", c=cast(s[1]), body=sast(s[2]), hasels=s[3] is not None,
                                 els=sast(s[3] or [])))
